@@ -40,7 +40,7 @@ PROFILES = {
     # C03: every vector-producing path, applied to products of earlier steps
     "dtype": {
         "weights": {
-            "vec": 10, "vnew": 2, "tab_dict": 5, "tab_vecs": 2, "copy": 2, "getitem": 4, "row": 5, "lshift": 6, "rshift": 2,
+            "vec": 10, "vnew": 2, "csv": 3, "tab_dict": 5, "tab_vecs": 2, "copy": 2, "getitem": 4, "row": 5, "lshift": 6, "rshift": 2,
             "binop": 10, "unop": 6, "cast": 4, "fillna": 5, "v0": 5, "sort": 3, "join": 3, "agg": 3, "method": 3,
             "view": 4, "set": 12, "tset": 7, "setattr": 1, "read": 1, "drop": 3,
         },
